@@ -328,6 +328,18 @@ fn literals() -> Vec<(&'static str, Extensions, bool)> {
         ("#pan{2 large}", Extensions::ADVANCED_UNITS, false),
         ("#trays{1 1/2 dozen}", Extensions::ADVANCED_UNITS, false),
         ("~{2 eggs}", Extensions::ADVANCED_UNITS | Extensions::TIMER_REQUIRES_TIME, false),
+        // dashes that are not the ASCII minus are ordinary punctuation: no range, no hidden modifier
+        ("@eggs{2–3}", none, false),
+        ("#tins{1–2}", none, false),
+        ("@stock{=1—2%l}", none, false),
+        ("@‐salt{}", none, false),
+        ("#‒pan{} and ~―rest{5%min}", none, false),
+        // a number followed by blanks, a line break or a comment and nothing else: no unit at all
+        ("@eggs{2 }", none, false),
+        ("@milk{ 1/2 }", none, false),
+        ("@sugar{2\n}", none, false),
+        ("#ramekins{4 }", none, false),
+        ("@x{3 [- c -]}", none, false),
         // a `>>` line is text when the document has a front matter; otherwise an entry (both are core)
         ("mix\n>> k: v\nserve", none, true),
     ]
